@@ -145,6 +145,9 @@ def classify(diag, infos, path, unit):
         elif li.fn and li.fn_kind == "body":
             # a clause located in real code? (should not happen) treat as safety
             out.update(kind="prop", props=safety_props(unit, li.fn), id="safety:%s" % li.fn)
+        elif li.item_fn and li.item_tag:
+            # postcondition of a tagged pure lemma (code-independent statement of part of a property)
+            out.update(kind="prop", props=list(li.item_tag[0]), id=li.item_tag[1], fn=li.item_fn)
         else:
             out.update(kind="aux", id="aux:%s" % (li.item_fn or li.file))
 
